@@ -67,7 +67,7 @@ func main() {
 		}
 	case "dump":
 		t0 := time.Now()
-		p, err := engine.Load(engine.Config{})
+		p, err := engine.Load(engine.Config{Dir: os.Getenv("VERIFSA_REPO")})
 		if err != nil {
 			fmt.Fprintln(os.Stderr, err)
 			os.Exit(2)
